@@ -375,6 +375,8 @@ func c18Run(c *mon.Ctx, idx int) {
 		same("neutral-budget-0", append(append([]optSpec(nil), set...), optSpec{kind: "max", max: 0}))
 		same("neutral-budget-above-steps", append([]optSpec{{kind: "max", max: steps + 1 + uint64(r.Intn(1000))}}, set...))
 		same("neutral-budget-equal-steps", append([]optSpec{{kind: "max", max: steps}}, set...))
+		huge := []uint64{1<<32 + 1, 1<<32 + 40, 1<<40 + 7, 3<<32 + 99, 1<<63 + 12, 1<<64 - 1, 1 << 32, 1<<31 + 5}
+		same("neutral-budget-huge", append(append([]optSpec(nil), set...), optSpec{kind: "max", max: huge[r.Intn(len(huge))]}))
 	}
 	if !has["unknown"] {
 		absent := false
@@ -437,7 +439,7 @@ func init() {
 		NumCases:    func(tier string) int { return tierN(tier, 5000, 250000) },
 		Run:         c18Run,
 		Required: func(tier string) []string {
-			return []string{"fixed_hook_cases", "rel:permutation", "rel:last-wins", "rel:insufficient-budget-refused", "rel:nil-hook-clears", "rel:caller-slice-not-aliased", "rel:neutral-identity-hook", "rel:neutral-nil-hook", "rel:neutral-tag-bexpr", "rel:neutral-budget-0", "rel:neutral-budget-above-steps", "rel:neutral-budget-equal-steps",
+			return []string{"fixed_hook_cases", "rel:permutation", "rel:last-wins", "rel:insufficient-budget-refused", "rel:nil-hook-clears", "rel:caller-slice-not-aliased", "rel:neutral-identity-hook", "rel:neutral-nil-hook", "rel:neutral-tag-bexpr", "rel:neutral-budget-0", "rel:neutral-budget-above-steps", "rel:neutral-budget-equal-steps", "rel:neutral-budget-huge",
 				"rel:neutral-unknown-when-all-resolve", "outcome:T", "outcome:F", "outcome:E", "hook_changed_outcome:props.hookUnwrap", "hook_changed_outcome:props.hookConst", "tag_changed_outcome", "unknown_changed_outcome",
 				"options_in_list:0", "options_in_list:3", "options_in_list:4"}
 		},
